@@ -433,8 +433,10 @@ def run(case, ctx):
         return
     cum = np.cumsum(probe) * dref / tot
     edges = pmin + dref * np.arange(nb + 1)
-    lo = edges[int(np.searchsorted(cum, 1e-9))]
-    hi = edges[min(nb, int(np.searchsorted(cum, 1 - 1e-9)) + 1)]
+    # 1e-13 quantiles: a component lighter than the 1e-9 R tolerance (e.g. the pi group at 0.003 degrees) must still be
+    # inside the covering window of the aligned reference, several of them could otherwise add up to more than 1e-9
+    lo = edges[max(0, int(np.searchsorted(cum, 1e-13)) - 1)]
+    hi = edges[min(nb, int(np.searchsorted(cum, 1 - 1e-13)) + 2)]
 
     def quant(u):
         return float(edges[min(nb, int(np.searchsorted(cum, u)) + 1)])
@@ -487,7 +489,9 @@ def run(case, ctx):
     frac = float(got.sum() * d / (Rr * pf))
     ctx.label("frac:in" if frac > 0.99 else "frac:out" if frac < 0.01 else "frac:partial")
 
-    st_tol = 3e-4 * Rr
+    # 5e-5 R = 3x the worst error measured with the default integrator over 500 sub-bin offsets and bin widths of
+    # 0.1 ... 1000 FWHM (1.5e-5 R); 3e-4 R applied while the coarse-bin finding was open and grids were refined instead
+    st_tol = (3e-4 if is_open("C02-stark-coarse-bins") else 5e-5) * Rr
     # (2) bin average by nesting: coarse bin = mean of its k fine sub-bins
     k = w["k"]
     if bins * k <= 12000:
